@@ -1,7 +1,7 @@
 (* Property C07: feature-dependent operations are impossible before the
    feature is negotiated.  Statements only. *)
 From VV Require Import Base.Bits Base.Rt Base.Val Gen.GenConsts Gen.GenLayout Gen.GenFns Gen.GenArms
-  Spec.BeSpec Spec.Gates Model.Transport Model.BeServer Proofs.BeProofs Proofs.TableProofs.
+  Spec.BeSpec Spec.Gates Model.Transport Model.BeServer Model.Frontend Proofs.BeProofs Proofs.TableProofs Proofs.FeProofs.
 Open Scope N_scope.
 
 (* backend: whenever the handler is invoked, the gate that the (regenerated) arm of that request
@@ -42,3 +42,30 @@ Theorem C07_reply_ack_always_offered : forall x,
   has (N.lor x VhostUserProtocolFeatures_REPLY_ACK) VhostUserProtocolFeatures_REPLY_ACK = true.
 Proof. intros x. apply lor_has. discriminate. Qed.
 Print Assumptions C07_reply_ack_always_offered.
+
+(* frontend endpoint (model): gated operations put nothing on the wire and change no state
+   while the feature is not acknowledged; the protocol-feature exchange itself needs the offer;
+   ring enable needs the acknowledged VHOST_USER_F_PROTOCOL_FEATURES *)
+Theorem C07_frontend_gated_silent : forall s name a bytes fds regions q bit,
+  In (name, bit)
+     [("get_queue_num"%string, VhostUserProtocolFeatures_MQ); ("reset_device"%string, VhostUserProtocolFeatures_RESET_DEVICE);
+      ("set_backend_request_fd"%string, VhostUserProtocolFeatures_BACKEND_REQ);
+      ("get_max_mem_slots"%string, VhostUserProtocolFeatures_CONFIGURE_MEM_SLOTS);
+      ("get_shmem_config"%string, VhostUserProtocolFeatures_SHMEM);
+      ("check_device_state"%string, VhostUserProtocolFeatures_DEVICE_STATE)] ->
+  hasf (fe_apf s) bit = false ->
+  f_sent (fe_op s name a bytes fds regions q) = [] /\ f_state (fe_op s name a bytes fds regions q) = s.
+Proof. exact fe_gated_silent. Qed.
+Print Assumptions C07_frontend_gated_silent.
+Theorem C07_frontend_exchange_gated : forall s name a bytes fds regions q,
+  name = "get_protocol_features"%string \/ name = "set_protocol_features"%string ->
+  hasf (fe_vf s) VhostUserVirtioFeatures_PROTOCOL_FEATURES = false ->
+  f_sent (fe_op s name a bytes fds regions q) = [] /\ f_state (fe_op s name a bytes fds regions q) = s.
+Proof. exact fe_protocol_exchange_gated. Qed.
+Print Assumptions C07_frontend_exchange_gated.
+Theorem C07_frontend_ring_enable_gated : forall s a bytes fds regions q,
+  hasf (fe_avf s) VhostUserVirtioFeatures_PROTOCOL_FEATURES = false ->
+  f_sent (fe_op s "set_vring_enable" a bytes fds regions q) = []
+  /\ f_state (fe_op s "set_vring_enable" a bytes fds regions q) = s.
+Proof. exact fe_ring_enable_gated. Qed.
+Print Assumptions C07_frontend_ring_enable_gated.
